@@ -135,4 +135,26 @@ theorem step_decreases (s s' : St) (a : Actor) (t : Nat) (h : step s a t = some 
     | (injection h with h; subst h; simp [μ, pRank, cRank, *] <;> omega)
     | (cases h; done)
 
+/-- one fair schedule: the filter moves whenever it can (reading everything available),
+    otherwise the producer -/
+def runFair : Nat → St → St
+  | 0, s => s
+  | fuel + 1, s =>
+    match step s .consumer s.avail with
+    | some s' => runFair fuel s'
+    | none =>
+      match step s .producer 0 with
+      | some s' => runFair fuel s'
+      | none => s
+
+theorem runFair_reachable (s0 : St) : ∀ (fuel : Nat) (s : St), Reachable s0 s → Reachable s0 (runFair fuel s)
+  | 0, s, h => h
+  | fuel + 1, s, h => by
+    unfold runFair
+    split
+    · rename_i s' hs; exact runFair_reachable s0 fuel s' (Reachable.step h hs)
+    · split
+      · rename_i s' hs; exact runFair_reachable s0 fuel s' (Reachable.step h hs)
+      · exact h
+
 end TrackVerif.LT.Protocol
